@@ -3,6 +3,7 @@
 pub mod ivx;
 pub mod meanchk;
 pub mod models;
+pub mod pool;
 
 use mc::Kind;
 use stats_ci::Confidence;
